@@ -77,23 +77,23 @@ type c18Contract struct {
 
 type c18Msg struct {
 	K      string  `json:"k"` // exec | wrap | reg | upd | cancel | other
-	C      int     `json:"c"`
-	W      int     `json:"w"`
-	Good   bool    `json:"good"`
-	Nested int     `json:"nested"` // exec on a reflect contract: target of the dispatched execute (-1: none)
+	C      int     `json:"c,omitempty"`
+	W      int     `json:"w,omitempty"`
+	Good   bool    `json:"good,omitempty"`
+	Nested int     `json:"nested,omitempty"` // exec on a reflect contract: 1 + target id of the dispatched execute (0: none)
 	M      *c18Msg `json:"m,omitempty"`
 }
 
 type c18Step struct {
 	Op      string      `json:"op"` // params | admin | block | tx
-	Enabled bool        `json:"enabled"`
-	Share   string      `json:"share"`   // raw LegacyDec integer (value * 10^18)
-	Allowed []int       `json:"allowed"` // denom ids (may repeat)
-	C       int         `json:"c"`
-	Admin   int         `json:"admin"`
-	Signer  int         `json:"signer"`
-	Fee     [][2]string `json:"fee"` // (denom id, amount)
-	Msgs    []c18Msg    `json:"msgs"`
+	Enabled bool        `json:"enabled,omitempty"`
+	Share   string      `json:"share,omitempty"`   // raw LegacyDec integer (value * 10^18)
+	Allowed []int       `json:"allowed,omitempty"` // denom ids (may repeat)
+	C       int         `json:"c,omitempty"`
+	Admin   int         `json:"admin,omitempty"`
+	Signer  int         `json:"signer,omitempty"`
+	Fee     [][2]string `json:"fee,omitempty"` // (denom id, amount)
+	Msgs    []c18Msg    `json:"msgs,omitempty"`
 }
 
 type c18Case struct {
@@ -288,10 +288,10 @@ func (r *c18Run) buildMsg(m c18Msg, signer sdk.AccAddress) sdk.Msg {
 		payload := []byte(`{"bogus_c18":{}}`)
 		if m.Good {
 			payload = []byte(`{"increment":{}}`)
-			if m.Nested >= 0 {
+			if m.Nested > 0 {
 				inner := base64.StdEncoding.EncodeToString([]byte(`{"increment":{}}`))
 				payload = []byte(fmt.Sprintf(`{"reflect_msg":{"msgs":[{"wasm":{"execute":{"contract_addr":"%s","msg":"%s","funds":[]}}}]}}`,
-					r.addr(m.Nested).String(), inner))
+					r.addr(m.Nested-1).String(), inner))
 			}
 		}
 		return &wasmtypes.MsgExecuteContract{Sender: signer.String(), Contract: r.addr(m.C).String(), Msg: payload}
@@ -352,6 +352,14 @@ func (w *c18World) runCase(cs c18Case) c18Obs {
 	}
 	r.cids = append(r.cids, idNoContr)
 
+	// every case starts from the same x/devgas params (the model's default_params)
+	{
+		msg := &devgastypes.MsgUpdateParams{Authority: w.govAddr.String(),
+			Params: devgastypes.ModuleParams{EnableFeeShare: true, DeveloperShares: sdkmath.LegacyNewDecWithPrec(5, 1), AllowedDenoms: nil}}
+		if _, err := c.App.MsgServiceRouter().Handler(msg)(c.Ctx(), msg); err != nil {
+			w.t.Fatalf("reset params: %v", err)
+		}
+	}
 	obs := c18Obs{Bal0: r.sparse(r.balances()), Reg0: r.registry(), Steps: []c18StepObs{}}
 	for _, st := range cs.Steps {
 		so := c18StepObs{}
